@@ -30,8 +30,19 @@ Definition c08_item_ok_stmt : Prop :=
    query, each once, with their own current values; len() is exact ---- *)
 Definition located (w : world) (h : entity) : Prop := get_mut (w_ents w) h <> None.
 
-Definition c08_iter_stmt : Prop :=
+(* Without a bound on the id space the statement is FALSE of the model - and of the code: row index
+   2^32-1 doubles as the "no row" placeholder, so a (practically unreachable) archetype with 2^32 rows
+   would hold an entity that iteration yields but get/View reject.  QueryCounterexample.v proves
+   ~ c08_iter_nofits_stmt with that witness; the claim is therefore made for worlds that [fits]. *)
+Definition c08_iter_nofits_stmt : Prop :=
   forall u w q, WInv u w ->
+    NoDup (map (fun p => e_id (fst p)) (query_iter w q)) /\
+    (forall h i, In (h, i) (query_iter w q) <->
+                 exists l, located w h /\ abs w h = Some l /\ sat (map fst l) q = true /\ i = item_spec l q) /\
+    query_len w q = lenN (query_iter w q).
+
+Definition c08_iter_stmt : Prop :=
+  forall u w q, WInv u w -> fits w ->
     NoDup (map (fun p => e_id (fst p)) (query_iter w q)) /\
     (forall h i, In (h, i) (query_iter w q) <->
                  exists l, located w h /\ abs w h = Some l /\ sat (map fst l) q = true /\ i = item_spec l q) /\
@@ -45,8 +56,12 @@ Definition c08_batched_stmt : Prop :=
     (forall b, In b (query_batches w q bs) -> b <> [] /\ lenN b <= bs).
 
 (* random access through a view agrees with iteration; reserved (unflushed) entities are in neither *)
-Definition c08_view_stmt : Prop :=
+Definition c08_view_nofits_stmt : Prop :=
   forall u w q h i, WInv u w ->
+    (view_get w q h = Some i <-> In (h, i) (query_iter w q)).
+
+Definition c08_view_stmt : Prop :=
+  forall u w q h i, WInv u w -> fits w ->
     (view_get w q h = Some i <-> In (h, i) (query_iter w q)).
 
 (* single-entity paths: query_one(_mut) / EntityRef::query, satisfies *)
